@@ -63,8 +63,9 @@ def _chunk(prop, seed, tier, lo, hi, wall):
 
 # ----------------------------------------------------------------------------- known findings
 def load_known():
-    """known: property=<id> signature=<sig> <text>   -> suppresses exactly that signature
-       fixed: property=<id> <commit> <text>           -> suppresses nothing"""
+    """known: property=<id> signature=<sig> [replay=<file under /verif>] <text>
+                                      -> suppresses exactly that signature (KNOWN-FINDING, exit 0)
+       fixed: property=<id> <commit> <text>   -> suppresses nothing"""
     known = {}
     path = os.path.join(VERIF, "KNOWN_FINDINGS.txt")
     if not os.path.exists(path):
@@ -74,10 +75,37 @@ def load_known():
         if not line.startswith("known:"):
             continue
         parts = line[len("known:"):].split()
-        kv = dict(p.split("=", 1) for p in parts[:2] if "=" in p)
+        kv = {}
+        rest = []
+        for p in parts:
+            k, _, v = p.partition("=")
+            if not rest and k in ("property", "signature", "replay") and v:
+                kv[k] = v
+            else:
+                rest.append(p)
         if "property" in kv and "signature" in kv:
-            known[(kv["property"], kv["signature"])] = " ".join(parts[2:])
+            known[(kv["property"], kv["signature"])] = {"text": " ".join(rest), "replay": kv.get("replay")}
     return known
+
+
+def directed_known(prop, known):
+    """Replay the stored history of every listed finding of this property, so
+    that a listed finding is reported on every run in which it still exists
+    (sampling alone might not hit a rare one).  Returns {sig: reproduced?}."""
+    out = {}
+    for (p, sig), info in sorted(known.items()):
+        if p != prop or not info.get("replay"):
+            continue
+        path = os.path.join(VERIF, info["replay"])
+        if not os.path.exists(path):
+            raise HarnessError(f"known finding {sig}: replay file {path} is missing")
+        _, res, got = replay_file(path)
+        out[sig] = (got == sig)
+        if got is not None and got != sig:
+            # the stored history now fails differently: that is a new violation, not the known one
+            out[sig] = False
+            out["__other__" + sig] = (got, path)
+    return out
 
 
 # ----------------------------------------------------------------------------- replay files
@@ -161,14 +189,23 @@ def cmd_run(args):
     # determinism slice: re-execute a few run indices in this process and in a fresh one
     det = determinism_slice(prop, seed, tier, min(runs, 24 if tier == "quick" else 64))
     known = load_known()
+    directed = directed_known(prop, known)
     new_viol = []
     known_seen = []
     for sig in sorted(agg["viols"]):
         v = agg["viols"][sig]
         if (prop, sig) in known:
-            known_seen.append((sig, known[(prop, sig)], v["count"]))
+            known_seen.append((sig, known[(prop, sig)]["text"], v["count"]))
             continue
         new_viol.append(v)
+    for sig, rep in sorted(directed.items()):
+        if sig.startswith("__other__"):
+            got, path = rep
+            doc = json.load(open(path, encoding="utf-8"))
+            new_viol.append({"signature": got, "detail": {"from_known_replay": path}, "cfg": doc["config"],
+                             "steps": doc["steps"], "run_index": -1, "count": 1})
+        elif rep and not any(s == sig for s, _, _ in known_seen):
+            known_seen.append((sig, known[(prop, sig)]["text"], 0))
     reported = []
     for v in new_viol[:8]:
         steps, note = minimise.minimise(prop, v["cfg"], v["steps"], v["signature"])
